@@ -54,6 +54,11 @@ static void dump(var tv) {
   shape(m, m->root, NULL);
   if (parent_bad) P("!PARENT");
   P(";");
+  if (parent_bad || visited > vlimit) {
+    /* Tree_Iter_Next/Prev climb through the parent links: on inconsistent links they may never return */
+    P("SKIPPED;SKIPPED");
+    return;
+  }
   size_t cnt = 0; int first = 1;
   try {
     foreach (k in tv) {
